@@ -90,15 +90,15 @@ Proof.
                               then set_flags c2 (cUseCopy c2) (cShape c2) false (cReady c2) (cUseNewFB c2) (cUseExt c2)
                               else c2) (cPW c) (cPH c)
                              (pic_build (cPW c) (cPH c)
-                                (client_apply (pic_get (cPic c)) (fb_for st c) (copy_wrects UC (cDX c) (cDY c))
-                                   (cDX c) (cDY c) (filter raw_emitted (rgn_iter false false (coalesce st U3c)))))) = M').
+                                (client_apply (pic_get (cPic c)) (fb_for st c) (copy_wrects (fst (count_fix UC U3c)) (cDX c) (cDY c))
+                                   (cDX c) (cDY c) (filter raw_emitted (rgn_iter false false (coalesce st (snd (count_fix UC U3c)))))))) = M').
     { destruct (cShape c && cCurChanged c && cReady c); destruct c2; csimpl; subst; destruct c; reflexivity. }
     assert (EC : cC (set_pic (if cShape c && cCurChanged c && cReady c
                               then set_flags c2 (cUseCopy c2) (cShape c2) false (cReady c2) (cUseNewFB c2) (cUseExt c2)
                               else c2) (cPW c) (cPH c)
                              (pic_build (cPW c) (cPH c)
-                                (client_apply (pic_get (cPic c)) (fb_for st c) (copy_wrects UC (cDX c) (cDY c))
-                                   (cDX c) (cDY c) (filter raw_emitted (rgn_iter false false (coalesce st U3c)))))) = rgn_empty).
+                                (client_apply (pic_get (cPic c)) (fb_for st c) (copy_wrects (fst (count_fix UC U3c)) (cDX c) (cDY c))
+                                   (cDX c) (cDY c) (filter raw_emitted (rgn_iter false false (coalesce st (snd (count_fix UC U3c)))))))) = rgn_empty).
     { destruct (cShape c && cCurChanged c && cReady c); destruct c2; csimpl; subst; destruct c; reflexivity. }
     rewrite EM, EC. split; [|reflexivity].
     unfold M', U3. msimp. rewrite EU2. msimp. rewrite HR.
@@ -185,11 +185,16 @@ Proof.
   assert (HUC : WF UC) by (unfold UC; wf).
   assert (HU3 : WF U3) by (unfold U3; wf).
   destruct (soft_cursor_spec _ _ _ _ _ HW HH HU3 Esoft) as (HU3c & Hsup3 & _).
-  destruct (coalesce_spec st U3c HU3c) as [HU4 Hsup4].
+  destruct (count_fix_spec UC U3c HUC HU3c) as (HUCf & HU3f & Hsupf & HfUC & _).
+  destruct (coalesce_spec st _ HU3f) as [HU4 Hsup4'].
+  assert (Hsup4 : forall x y, rgn_mem U3c x y = true -> rgn_mem (coalesce st (snd (count_fix UC U3c))) x y = true)
+    by (intros x0 y0 Hm0; apply Hsup4', Hsupf, Hm0).
   match type of Hs with (if ?cond then _ else _) = _ => destruct cond end; [|discriminate].
   inversion Hs; subst c' n rects. clear Hs.
   assert (EUC : rgn_mem UC x y = false).
   { unfold UC. msimp. rewrite HM. cbn [negb]. rewrite andb_false_r. reflexivity. }
+  assert (EUCf : rgn_mem (fst (count_fix UC U3c)) x y = false).
+  { destruct (rgn_mem (fst (count_fix UC U3c)) x y) eqn:Ef; [|reflexivity]. rewrite (HfUC _ _ Ef) in EUC. discriminate. }
   assert (EU3 : rgn_mem U3 x y = true).
   { unfold U3. msimp. rewrite EU2. msimp. rewrite HM, HR, EUC. reflexivity. }
   pose proof (Hsup4 _ _ (Hsup3 _ _ EU3)) as EU4.
@@ -197,7 +202,7 @@ Proof.
   rewrite wraw_has_raws, wraw_has_copies, wcopy_has_copies, wcopy_has_raws.
   rewrite filter_raw_all by exact HU4.
   rewrite <- (mem_iter_dir false false _ x y HU4), EU4.
-  unfold copy_wrects. rewrite <- (mem_iter_dir _ _ UC x y HUC), EUC.
+  unfold copy_wrects. rewrite <- (mem_iter_dir _ _ _ x y HUCf), EUCf.
   split.
   - rewrite orb_true_r. reflexivity.
   - destruct (cShape c && cCurChanged c && cReady c); [destruct (sCursor st) as [[[[? ?] cw] ch]|]; [destruct ((cw =? 0) || (ch =? 0))|]|]; reflexivity.
